@@ -126,6 +126,11 @@ def steady_state_transport_solver(
         logger.info("Setting both equal.")
         nlx, nly = nxe, nye
 
+    if ((nxe - nlx) % 2 > 0) or ((nye - nly) % 2 > 0):
+        raise ValueError(
+            "number of grid cells including halo minus modes must be even."
+        )
+
     # Deltas for truncated Fourier transform
     dlx, dly = (nxe - nlx) // 2, (nye - nly) // 2
 
